@@ -597,6 +597,43 @@ theorem persist_other_members (c : Cfg) (final : Bool) (ts : Rat) (s : St) (ms :
   (roundFold_ext (fun v => ∃ m ∈ ms, ∃ a ∈ m.assigns, v = ⟨"", a.target⟩) c final ts s ms
     (fun m hm a ha => ⟨m, hm, a, ha, rfl⟩)).vals w (fun ⟨m, hm, a, ha, e⟩ => hw m hm a ha e)
 
+/-- **keeps its value across activation periods** — for a computed / collected variable itself (the statement
+`persist_across_periods` above is about variables nobody assigns).  Let `w` be assigned by the member `m0` only
+(`pre` and `post` are the other members, before and after it in the audience).  In a round in which `m0` is dormant when
+its turn comes — it is not visited, or it is outside a period and its `audits` condition is false, cannot be evaluated yet,
+or the round is the final one — `w` has the same value after the round as before it: whatever the other members do, whatever
+samples arrive.  Together with `collects_step` (what a visit inside a period does to it) this is the whole life of the
+variable. -/
+theorem persists_while_dormant (c : Cfg) (final : Bool) (ts : Rat) (samples : List Sample) (s : St)
+    (pre post : List Member) (m0 : Member) (w : VarName)
+    (hc : c.members = pre ++ m0 :: post)
+    (ht : w ≠ ⟨"", "t"⟩) (hm : w ≠ ⟨"", "mood"⟩) (hmt : w ≠ ⟨"", "moodt"⟩) (hs : ∀ x ∈ samples, x.v ≠ w)
+    (hpre : ∀ m ∈ pre, ∀ a ∈ m.assigns, w ≠ ⟨"", a.target⟩)
+    (hpost : ∀ m ∈ post, ∀ a ∈ m.assigns, w ≠ ⟨"", a.target⟩)
+    (hdorm : let s1 := pre.foldl (roundStep c final ts) (beginRound c ts samples s)
+             visited final s1 m0 = false ∨
+             ((s1.aud m0.name).auditing = false ∧
+               (condOf final s1 m0 = some (.ok false) ∨ condOf final s1 m0 = none))) :
+    (round c final ts samples s).vals w = s.vals w := by
+  rw [round_eq]; split
+  · rfl
+  · rw [hc, List.foldl_append, List.foldl_cons, persist_other_members c final ts _ post w hpost]
+    have hstep : roundStep c final ts (pre.foldl (roundStep c final ts) (beginRound c ts samples s)) m0
+        = pre.foldl (roundStep c final ts) (beginRound c ts samples s) := by
+      simp only at hdorm
+      generalize pre.foldl (roundStep c final ts) (beginRound c ts samples s) = s1 at hdorm ⊢
+      unfold roundStep
+      rcases hdorm with h | ⟨hna, hcond⟩
+      · simp [h]
+      · split
+        · exact visit_inactive c final ts _ m0 hcond hna
+        · rfl
+    rw [hstep, persist_other_members c final ts _ pre w hpre]
+    exact beginRound_vals c ts samples s w ht hm hmt hs
+
+/-- the dormancy premise is met, e.g., by every member outside a period in the final round -/
+example (s : St) (m : Member) : condOf true s m = some (.ok false) := by simp [condOf]
+
 example : (⟨"", "x"⟩ : VarName) ≠ ⟨"", "t"⟩ ∧ (⟨"", "x"⟩ : VarName) ≠ ⟨"", "mood"⟩ ∧
     (⟨"", "x"⟩ : VarName) ≠ ⟨"", "moodt"⟩ ∧
     ∀ x ∈ [(⟨.scalar, ⟨"a", "sig"⟩, .sc (.num 1)⟩ : Sample)], x.v ≠ ⟨"", "x"⟩ := by decide
